@@ -115,34 +115,100 @@ theorem load_v_save_v_data (v : Nat) (hv : 1 ≤ v ∧ v ≤ 5) (d : DataO)
   Records.Lemmas.data_roundtrip v hv d hj
 
 open Records in
-/-- **DataCollection, every protocol 1…4 × every Data protocol 1…5.**  For every collection the
-pair can represent, saving with those versions succeeds and loading returns `projectDC`: all
-datasets (projected as above) *including their arithmetic derived components* (protocols ≤ 3 keep a
-derived component only when its link is among the saved internal links — it always is), the
-external links, the groups (protocol 1: the plain subsets upgraded to groups on every dataset),
-the group counter from protocol 3 on. -/
-theorem load_v_save_v (cv dv : Nat) (hc : 1 ≤ cv ∧ cv ≤ 4) (hd : 1 ≤ dv ∧ dv ≤ 5) (dc : DCO)
-    (hrep : representable cv dv dc = true) :
-    ∃ r, saveDC cv dv dc = some r ∧ loadDC r = some (projectDC cv dv dc) :=
-  Records.Lemmas.dc_roundtrip cv dv hc hd dc (Records.Lemmas.representable_spec cv dv dc hrep)
+/-- **DataCollection, every protocol 1…4 × an independently chosen Data protocol 1…5 for every
+dataset.**  For every collection the assignment can represent, saving with those versions succeeds,
+the collection record is tagged `cv` and dataset record `i` is tagged `dvs[i]`, and loading returns
+`projectDC`: all datasets (each projected to *its own* protocol) *including their derived
+components* (protocols ≤ 3 keep a derived component only when its link is among the saved links
+that do not cross datasets — it always is), the links between datasets (protocols ≤ 3: every
+helper expanded into its `ComponentLink`s, re-classified on load as "some input lives in another
+dataset than the output" — single-input, multi-input with all inputs foreign and multi-input with
+mixed own / foreign inputs alike; protocol 4: the helpers themselves), the groups (protocol 1: the
+plain subsets upgraded to groups on every dataset), the group counter from protocol 3 on. -/
+theorem load_v_save_v (cv : Nat) (dvs : List Nat) (hc : 1 ≤ cv ∧ cv ≤ 4)
+    (hd : ∀ v ∈ dvs, 1 ≤ v ∧ v ≤ 5) (dc : DCO) (hrep : representable cv dvs dc = true) :
+    ∃ r, saveDC cv dvs dc = some r ∧ r.protocol = cv ∧ r.data.map (·.protocol) = dvs ∧
+      loadDC r = some (projectDC cv dvs dc) :=
+  Records.Lemmas.dc_roundtrip cv dvs hc hd dc (Records.Lemmas.representable_spec cv dvs dc hrep)
+
+open Records in
+/-- **One unserializer, any document, any request order: loading is record-wise.**  For every
+document `doc` (any number of collection records of any protocols, their dataset records of any
+protocols, in any mixture — also records no saver of this tree writes) and every sequence of
+`context.object(name)` requests the caller makes before asking for `__main__`, the unserializer
+state machine (`_objs` memo, `Unser.run`) returns exactly what loading every record on its own
+returns: each record is handed to the loader registered for *that record's* `_type` and
+`_protocol` (`loadDC` / `loadData` match on `r.protocol`), whatever was loaded before it. -/
+theorem unser_recordwise (doc : Doc) (reqs : List Req) (hv : ∀ q ∈ reqs, q.valid doc) :
+    Unser.run doc reqs = doc.mapM loadDC :=
+  Records.Lemmas.run_eq_mapM doc reqs hv
+
+open Records in
+/-- **Mixed-protocol documents.**  A document is assembled from any number of collections, each
+written with its own `DataCollection` protocol `cv` and every dataset with its own `Data` protocol
+`dvs[i]` (all registered versions, chosen independently, each assignment representable).  Then every
+save succeeds, and a single unserializer — after any valid sequence of earlier requests, in any
+order — returns for every collection `projectDC cv dvs dc`: every record written in version `v`'s
+format has been loaded by version `v`'s loader, whatever else the document holds. -/
+theorem load_doc_mixed (parts : List (Nat × List Nat × DCO))
+    (hparts : ∀ p ∈ parts, (1 ≤ p.1 ∧ p.1 ≤ 4) ∧ (∀ v ∈ p.2.1, 1 ≤ v ∧ v ≤ 5) ∧
+      representable p.1 p.2.1 p.2.2 = true) :
+    ∃ doc, parts.mapM (fun p => saveDC p.1 p.2.1 p.2.2) = some doc ∧
+      doc.map (·.protocol) = parts.map (·.1) ∧
+      doc.map (fun r => r.data.map (·.protocol)) = parts.map (·.2.1) ∧
+      ∀ reqs : List Req, (∀ q ∈ reqs, q.valid doc) →
+        Unser.run doc reqs = some (parts.map fun p => projectDC p.1 p.2.1 p.2.2) := by
+  obtain ⟨doc, hs, hl⟩ := Records.Lemmas.mapM_roundtrip
+    (fun p : Nat × List Nat × DCO => saveDC p.1 p.2.1 p.2.2) loadDC
+    (fun p => projectDC p.1 p.2.1 p.2.2) parts
+    (fun p hp =>
+      let ⟨r, h1, _, _, h4⟩ := load_v_save_v p.1 p.2.1 (hparts p hp).1 (hparts p hp).2.1 p.2.2 (hparts p hp).2.2
+      ⟨r, h1, h4⟩)
+  refine ⟨doc, hs, ?_, ?_, fun reqs hv => ?_⟩
+  · exact Records.Lemmas.mapM_map_eq _ (·.protocol) (·.1) parts doc
+      (fun p hp r h => by
+        obtain ⟨r', h1, h2, _, _⟩ :=
+          load_v_save_v p.1 p.2.1 (hparts p hp).1 (hparts p hp).2.1 p.2.2 (hparts p hp).2.2
+        rw [h1] at h; cases h; exact h2) hs
+  · exact Records.Lemmas.mapM_map_eq _ (fun r => r.data.map (·.protocol)) (·.2.1) parts doc
+      (fun p hp r h => by
+        obtain ⟨r', h1, _, h3, _⟩ :=
+          load_v_save_v p.1 p.2.1 (hparts p hp).1 (hparts p hp).2.1 p.2.2 (hparts p hp).2.2
+        rw [h1] at h; cases h; exact h3) hs
+  · rw [unser_recordwise doc reqs hv]; exact hl
 
 open Records in
 /-- the newest pair loses nothing but what is not observed: `project` is the identity there -/
-theorem newest_is_lossless (dc : DCO) : projectDC 4 5 dc = dc := by
-  have h : projectData 5 = id := funext fun d => by simp [projectData]
+theorem newest_is_lossless (dc : DCO) :
+    projectDC 4 (List.replicate dc.data.length 5) dc = dc := by
+  have h : ∀ ds : List DataO, projectDatas (List.replicate ds.length 5) ds = ds := by
+    intro ds
+    induction ds with
+    | nil => rfl
+    | cons d r ih =>
+      simp only [projectDatas, List.length_cons, List.replicate_succ, List.zip_cons_cons,
+        List.map_cons] at ih ⊢
+      rw [ih]
+      simp [projectData]
   simp [projectDC, h]
 
 open Records in
--- non-vacuity: a two-dataset collection with a derived component, a group and a key join is
--- representable under every pair, a two-component join is refused by protocol 3 only
+-- non-vacuity: a two-dataset collection with a derived component, a group, a key join, an identity
+-- helper and a link whose inputs come from both datasets is representable under every assignment,
+-- also a mixed one; a two-component join is refused by protocol 3 only; a "link" that stays inside
+-- one dataset is not a link between datasets (protocols ≤ 3 would re-classify it)
 example :
-    let d0 : DataO := ⟨"d0", [⟨"x", .int, [1, 2, 3]⟩], [.dbl "z" "x"], [⟨"s", 0, .gt "x" 1, ⟨1, 2, some 3⟩⟩],
-      ⟨1, 7, some 2⟩, [⟨1, ["x"], ["u"]⟩], some 0, [("k", "v")], false⟩
-    let d1 : DataO := ⟨"d1", [⟨"u", .int, [2, 3]⟩], [], [⟨"s", 0, .gt "x" 1, ⟨1, 2, some 3⟩⟩],
+    let d0 : DataO := ⟨"d0", [⟨"x", .int, [1, 2, 3]⟩], [.dbl "z" "x", .fn1 "t" "twice" "z"],
+      [⟨"s", 0, .gt "x" 1, ⟨1, 2, some 3⟩⟩], ⟨1, 7, some 2⟩, [⟨1, ["x"], ["u"]⟩], some 0, [("k", "v")], false⟩
+    let d1 : DataO := ⟨"d1", [⟨"u", .int, [2, 3]⟩, ⟨"w", .int, [0, 1]⟩], [], [⟨"s", 0, .gt "x" 1, ⟨1, 2, some 3⟩⟩],
       Style.default, [⟨0, ["u"], ["x"]⟩], some 1, [], true⟩
-    let dc : DCO := ⟨[d0, d1], [], [("s", ⟨1, 2, some 3⟩)], 1⟩
-    (representable 3 3 dc = true) ∧ (representable 4 5 dc = true) ∧
-    (saveData 3 { d0 with joins := [⟨1, ["x", "x"], ["u", "u"]⟩] } = none) := by decide
+    let links : List Ext := [.same ⟨0, "x"⟩ ⟨1, "u"⟩, .plain ⟨[⟨1, "u"⟩, ⟨0, "z"⟩], ⟨1, "w"⟩, "add2", none⟩]
+    let dc : DCO := ⟨[d0, d1], links, [("s", ⟨1, 2, some 3⟩)], 1⟩
+    (representable 3 [3, 3] dc = true) ∧ (representable 4 [5, 5] dc = true) ∧
+    (representable 2 [1, 5] dc = true) ∧ (representable 3 [5, 2] dc = true) ∧
+    (saveData 3 { d0 with joins := [⟨1, ["x", "x"], ["u", "u"]⟩] } = none) ∧
+    (representable 3 [5, 5] { dc with links := [.plain ⟨[⟨1, "u"⟩], ⟨1, "w"⟩, "twice", none⟩] } = false) := by
+  decide
 
 /-! ## The chase loop, for every table (names of any type with decidable equality) -/
 
